@@ -160,6 +160,10 @@ func (s PresentationSubmission) Resolve(envelope Envelope) (map[string]vc.Verifi
 		if err != nil {
 			return nil, fmt.Errorf("unable to resolve credential for input descriptor '%s': %w", inputDescriptor.Id, err)
 		}
+		// every entry counts: entries for the same input descriptor may not overwrite each other with another credential
+		if existing, exists := result[inputDescriptor.Id]; exists && existing.Raw() != resolvedCredential.Raw() {
+			return nil, fmt.Errorf("input descriptor '%s' is mapped to multiple credentials", inputDescriptor.Id)
+		}
 		result[inputDescriptor.Id] = *resolvedCredential
 	}
 	return result, nil
